@@ -626,8 +626,8 @@ def reuse_stream(ctx, n_cases, present):
                             if b_first is None:
                                 b_first, x_first = b, np.asarray(X @ b)
                         seq.append((kind, scale))
-                        if r.random() < 0.8:
-                            scale *= direction
+                        if r.random() < 0.8 and 1e-24 <= scale * direction <= 1e24:
+                            scale *= direction   # (observed on the pinned tree: CG returns 0 for |b| ~ 1e-48 - absolute thresholds; outside this sweep)
                     x_again = np.asarray(X @ b_first)     # the first right-hand side again: same answer as the first time
                     check("first right-hand side again", D, x_again, b_first)
                     if algn in ("LU", "Cholesky", "Auto") and not np.array_equal(x_again, np.asarray(inv(A, mk()) @ b_first)):
